@@ -115,7 +115,7 @@ var allReads = []string{"get", "has", "getwithindex", "getbyindex", "iterate", "
 	"versionedproof", "hash", "workinghash", "imhash", "getversioned", "getimmutable", "export"}
 
 var baseWeights = map[string]int{"set": 30, "remove": 12, "save": 18, "rollback": 3, "reopen": 7, "prune": 7, "prune_refuse": 1,
-	"lvfo": 3, "dvf": 2, "setnil": 1, "read": 0, "hop": 0, "iter": 0, "pin": 0, "unpin": 0, "lvfo_invalid": 0, "replay": 0, "hold": 0}
+	"lvfo": 3, "dvf": 2, "setnil": 1, "read": 0, "hop": 0, "iter": 0, "pin": 0, "unpin": 0, "lvfo_invalid": 0, "replay": 0, "hold": 0, "reload": 0, "reload_invalid": 0}
 
 func weights(over map[string]int) map[string]int {
 	m := map[string]int{}
@@ -133,7 +133,7 @@ func (w *World) indexCurrentOnDisk() bool { return w.EverFast && w.IndexLabel ==
 // trackIndex updates the model of the persisted index label after op was applied successfully.
 func (w *World) trackIndex(op Op) {
 	switch op.Kind {
-	case "save", "reopen", "lvfo", "dvf", "hop":
+	case "save", "reopen", "reload", "lvfo", "dvf", "hop":
 		if !w.Cfg.SkipFast {
 			w.IndexLabel = w.Latest
 		}
@@ -189,6 +189,12 @@ func GenOp(t *rapid.T, w *World, p *Profile) Op {
 	add("pin", w.Latest > 0 && npins < 3)
 	add("unpin", len(w.Pins) > 0)
 	add("hold", w.Latest > 0 && len(w.Held) < 3)
+	reloadOK := w.Latest > 0
+	if reloadOK && Open("F2") && !w.Cfg.SkipFast && !w.indexCurrentOnDisk() {
+		reloadOK = false // steer around F2 as for reopen
+	}
+	add("reload", reloadOK)
+	add("reload_invalid", w.Latest > 0)
 	// the importer allocates a nonce table of size version+1: keep imports to realistic version numbers
 	add("hop", w.Latest > 0 && !w.Dirty && w.Latest < 1<<20)
 	total := 0
@@ -279,6 +285,16 @@ func GenOp(t *rapid.T, w *World, p *Profile) Op {
 			return Op{Kind: "pin", N: vs[0]}
 		}
 		return Op{Kind: "pin", N: rapid.SampledFrom(w.Retained()).Draw(t, "pinv")}
+	case "reload":
+		if rapid.Bool().Draw(t, "reloadLatest") {
+			return Op{Kind: "reload", N: 0}
+		}
+		return Op{Kind: "reload", N: rapid.SampledFrom(w.Retained()).Draw(t, "reloadv")}
+	case "reload_invalid":
+		if w.First > 1 && rapid.Bool().Draw(t, "rinvLow") {
+			return Op{Kind: "reload_invalid", N: rapid.Int64Range(1, w.First-1).Draw(t, "rinvTo")}
+		}
+		return Op{Kind: "reload_invalid", N: w.Latest + int64(rapid.IntRange(1, 3).Draw(t, "rinvOver"))}
 	case "hold":
 		if rapid.Bool().Draw(t, "holdLatest") {
 			return Op{Kind: "hold", N: w.Latest}
